@@ -59,8 +59,8 @@ for mp in sorted(glob.glob(os.path.join(V, "seeded", "*", "meta.json"))):
     m["_name"] = os.path.basename(os.path.dirname(mp))
     metas.append(m)
 missed = [m for m in metas if m.get("history", "").upper().startswith("MISSED") or "miss" in m.get("history", "")[:60].lower()]
-notcaught = [m for m in metas if m.get("caught_by", "").startswith("NOT CAUGHT")]
-sec8 += "%d changes; %d are caught by the registered quick checks now, %d %s not (outside the stated bounds: %s); %d were **missed at first** and led to a stronger check (history column).\n\n" % (len(metas), len(metas) - len(notcaught), len(notcaught), "is" if len(notcaught) == 1 else "are", ", ".join("`%s`" % m["_name"] for m in notcaught) or "-", len(missed) - len(notcaught))
+notcaught = [m for m in metas if m.get("caught_by", "").startswith("NOT CAUGHT") or "NOT by the quick tier" in m.get("caught_by", "")]
+sec8 += "%d changes; %d are caught by the registered quick checks now, %d %s not (caught by the thorough tier only, or outside the stated bounds: %s); %d were **missed at first** and led to a stronger check (history column).\n\n" % (len(metas), len(metas) - len(notcaught), len(notcaught), "is" if len(notcaught) == 1 else "are", ", ".join("`%s`" % m["_name"] for m in notcaught) or "-", len(missed) - len(notcaught))
 sec8 += "| change | breaks | needs | caught by | history |\n|---|---|---|---|---|\n"
 for m in metas:
     sec8 += "| `%s` | %s | %s | %s | %s |\n" % (m["_name"], m.get("breaks", "").replace("|", "/"), m.get("needs", "").replace("|", "/"), m.get("caught_by", "").replace("|", "/"), m.get("history", "caught at first run").replace("|", "/"))
